@@ -475,7 +475,7 @@ func C03(tier string) int {
 	run.Coverage = map[string]any{
 		"evaluations":                            stats.kills + stats.images + stats.fullRuns,
 		"distinct_nontrivial":                    stats.histories,
-		"rule":                                   "histories of 1-2 requests (all over a 9-request menu incl. conflicting ones and a batch whose first entry is refused, single/batch/proposal on 2 keys; 3 in thorough) plus fixed length-4 histories, run by a child process on the real signer stack; (1) the child is killed with SIGKILL at every hook point (store enter/exit, rules enter/exit, sign, request start/end); (2) the child runs under strace and every system-call boundary on the storage directory is a power-loss point: for each, every directory image allowed by the persistence model (metadata in order; O_DSYNC writes durable at exit and absent/complete/torn while in flight; other writes volatile until fsync and dropped as none/all/each/each suffix) is materialised; every image and every killed directory is reopened by the real code and probed with every request conflicting with a request that had reached signing: either the instance refuses to start or it refuses all of them; (3) the storage runs full (RLIMIT_FSIZE in the child: the write crossing the limit is cut short, every later write fails) from each request of the history on, at offsets over the bytes that request appends to the value log, and the same restart-and-probe oracle is applied; distinct = histories",
+		"rule":                                   "histories of 1-2 requests (all over a 9-request menu incl. conflicting ones and a batch whose first entry is refused, single/batch/proposal on 2 keys; 3 in thorough) plus fixed length-4 histories, run by a child process on the real signer stack; (1) the child is killed with SIGKILL at every hook point (store enter/exit, rules enter/exit, sign, request start/end); (2) the child runs under strace and every system-call boundary on the storage directory is a power-loss point: for each, every directory image allowed by the persistence model (metadata in order; O_DSYNC writes durable at exit and absent/complete/torn while in flight; other writes volatile until fsync and dropped as none/all/each/each suffix) is materialised; every image and every killed directory is reopened by the real code and probed with every request conflicting with a request that had reached signing: either the instance refuses to start or it refuses all of them; in the final image each completed write to the value log is damaged in turn (four garbled bytes) with the same oracle; (3) the storage runs full (RLIMIT_FSIZE in the child: the write crossing the limit is cut short, every later write fails) from each request of the history on, at offsets over the bytes that request appends to the value log, and the same restart-and-probe oracle is applied; distinct = histories",
 		"samples":                                samples.List(),
 		"exhaustive":                             !capped,
 		"histories":                              stats.histories,
@@ -492,7 +492,7 @@ func C03(tier string) int {
 	}
 	run.Assumptions = []string{
 		"persistence model M-ord: metadata operations persist in program order; a write to an O_SYNC/O_DSYNC descriptor is durable when the call returns; other writes are volatile until fsync/fdatasync of that file returns",
-		"media corruption, reordered metadata and kernel bugs are out of scope",
+		"reordered metadata and kernel bugs are out of scope; of media corruption only one damaged block (four garbled bytes inside one completed value-log write, final image of each history) is enumerated",
 		"SIGKILL leaves the page cache intact (it is a process crash, not a power loss)",
 	}
 	return run.Finish()
@@ -670,6 +670,41 @@ func c03Traced(run *ev.Run, h []HReq, hs []string, root string, stats *c03Stats,
 			stats.mu.Unlock()
 			for _, v := range viols {
 				run.Violate(fmt.Sprintf("powerloss:%s:%s", strings.Join(hs, ";"), variant.Kind), fmt.Sprintf("history [%s], power lost after system call #%d (%s), %s: %s", strings.Join(hs, ", "), cp, tr.Describe(cp), variant.Desc, v),
+					map[string]any{"check": "C03", "history": h, "crash_point": cp, "variant": variant.Desc})
+			}
+		}
+	}
+	// Damaged blocks: in the final image, each record the value log received is garbled in turn. The instance either
+	// refuses to start on such a directory or still refuses everything that conflicts with what it had signed.
+	if len(points) > 0 {
+		cp := points[len(points)-1]
+		signed := map[string]bool{}
+		for _, mk := range tr.MarkersBefore(cp) {
+			f := strings.Fields(mk)
+			if len(f) == 3 && f[0] == "SIGN" {
+				signed[f[1]+" "+f[2]] = true
+			}
+		}
+		for _, variant := range tr.DamageVariants(cp, ".vlog") {
+			img := filepath.Join(root, "img")
+			_ = os.RemoveAll(img)
+			if err := tr.Materialise(cp, variant, img); err != nil {
+				return err
+			}
+			failed, viols, err := c03Recover(img, h, signed)
+			if err != nil {
+				return err
+			}
+			stats.mu.Lock()
+			stats.images++
+			stats.variants[variant.Kind]++
+			if failed {
+				stats.failedClosed++
+				stats.variants["damaged-block:refused-to-start"]++
+			}
+			stats.mu.Unlock()
+			for _, v := range viols {
+				run.Violate(fmt.Sprintf("damaged-block:%s", strings.Join(hs, ";")), fmt.Sprintf("history [%s], %s: %s", strings.Join(hs, ", "), variant.Desc, v),
 					map[string]any{"check": "C03", "history": h, "crash_point": cp, "variant": variant.Desc})
 			}
 		}
